@@ -182,6 +182,7 @@ fn finish(ctx: &Ctx, report: Report, known: &[KnownFinding], is_replay: bool) ->
         if !ev.explanation.is_empty() {
             cov.insert("explanation".into(), json!(ev.explanation));
         }
+        cov.insert("checked_tree".into(), json!(std::env::var("DM_REPO").unwrap_or_else(|_| "/repo".into())));
         cov.insert("known_finding_hits".into(), json!(known_hits.iter().map(|(k, v)| (k.clone(), v.0)).collect::<BTreeMap<_, _>>()));
         for (k, v) in &ev.extra {
             cov.insert(k.clone(), v.clone());
@@ -196,7 +197,9 @@ fn finish(ctx: &Ctx, report: Report, known: &[KnownFinding], is_replay: bool) ->
             "wall_s": ctx.elapsed(),
             "violations": seen.len(),
         });
-        let dir = ctx.verif_dir.join("evidence");
+        // (runs against scratch copies of the code — mutants, seeded changes — set DMV_EVIDENCE_DIR so that the committed
+        // evidence only ever describes runs against $DM_REPO = /repo)
+        let dir = std::env::var("DMV_EVIDENCE_DIR").map(std::path::PathBuf::from).unwrap_or_else(|_| ctx.verif_dir.join("evidence"));
         let _ = std::fs::create_dir_all(&dir);
         let path = dir.join(format!("{id}.json"));
         if let Err(e) = std::fs::write(&path, serde_json::to_string_pretty(&doc).unwrap()) {
